@@ -25,6 +25,18 @@ fn specs_core() -> Vec<OptSpec> {
         }
     }
     v.push(OptSpec::Rmsprop(0.0, 0.0, 0.0, None, None, false));
+    // ONE hyper-parameter left at 0 ("use the documented default") at a time, with a step size large enough for a wrong
+    // default to show within a few steps
+    v.push(OptSpec::Sgdm(0.05, 0.0, 0.0, None));
+    v.push(OptSpec::Adam(0.05, 0.0, 0.999, 1e-8, None));
+    v.push(OptSpec::Adam(0.05, 0.9, 0.0, 1e-8, None));
+    v.push(OptSpec::Adam(0.05, 0.9, 0.999, 0.0, None));
+    v.push(OptSpec::AdamW(0.05, 0.0, 0.999, 1e-8, 0.01));
+    v.push(OptSpec::AdamW(0.05, 0.9, 0.0, 1e-8, 0.01));
+    v.push(OptSpec::AdamW(0.05, 0.9, 0.999, 0.0, 0.01));
+    v.push(OptSpec::AdamW(0.05, 0.9, 0.999, 1e-8, 0.0));
+    v.push(OptSpec::Rmsprop(0.05, 0.0, 1e-8, None, None, false));
+    v.push(OptSpec::Rmsprop(0.05, 0.9, 0.0, None, Some(0.5), true));
     v
 }
 
